@@ -99,6 +99,8 @@ type Node struct {
 	Silent          bool             // never answers getheaders (pure stall)
 	PushAfterReply  *wire.MsgHeaders // unsolicited headers message pushed right after the first getheaders answer of every connection
 	PushInfo        string
+	PushSeq         []*wire.MsgHeaders // further unsolicited headers messages pushed after PushAfterReply, one after the other
+	PushSeqInfo     []string
 	Services        wire.ServiceFlag
 	// state
 	ln       net.Listener
@@ -450,9 +452,19 @@ func (c *Conn) loop() {
 			n.mu.Lock()
 			push, pinfo := n.PushAfterReply, n.PushInfo
 			n.mu.Unlock()
-			if push != nil && atomic.CompareAndSwapInt32(&c.pushed, 0, 1) {
-				if err := c.write(push, pinfo); err != nil {
-					return
+			n.mu.Lock()
+			seq, seqInfo := n.PushSeq, n.PushSeqInfo
+			n.mu.Unlock()
+			if (push != nil || len(seq) > 0) && atomic.CompareAndSwapInt32(&c.pushed, 0, 1) {
+				if push != nil {
+					if err := c.write(push, pinfo); err != nil {
+						return
+					}
+				}
+				for i, m := range seq {
+					if err := c.write(m, seqInfo[i]); err != nil {
+						return
+					}
 				}
 			}
 		default:
